@@ -207,6 +207,43 @@ func (e *env) catalogue() []kase {
 	ks = append(ks, kase{name: "invalid:blocked-signer", tx: e.build([]neotest.Signer{e.singles[0], e.blocked}, scr(), nil, nil)})
 	ks = append(ks, kase{name: "invalid:bad-opcode-in-script", tx: e.build(sg, []byte{0xff, byte(opcode.RET)}, nil, nil)})
 	ks = append(ks, kase{name: "invalid:jump-outside-script", tx: e.build(sg, []byte{byte(opcode.JMP), 100, byte(opcode.RET)}, nil, nil)})
+	// every instruction with a target operand: a target in the middle of another
+	// instruction (inside the data of a PUSHDATA1) and a target outside the script
+	for _, jo := range []struct {
+		op   opcode.Opcode
+		long bool
+		two  bool
+	}{{opcode.JMP, false, false}, {opcode.JMPL, true, false}, {opcode.JMPIF, false, false}, {opcode.JMPIFL, true, false}, {opcode.JMPIFNOT, false, false}, {opcode.JMPIFNOTL, true, false},
+		{opcode.JMPEQ, false, false}, {opcode.JMPEQL, true, false}, {opcode.JMPNE, false, false}, {opcode.JMPNEL, true, false}, {opcode.JMPGT, false, false}, {opcode.JMPGTL, true, false},
+		{opcode.JMPGE, false, false}, {opcode.JMPGEL, true, false}, {opcode.JMPLT, false, false}, {opcode.JMPLTL, true, false}, {opcode.JMPLE, false, false}, {opcode.JMPLEL, true, false},
+		{opcode.CALL, false, false}, {opcode.CALLL, true, false}, {opcode.PUSHA, true, false}, {opcode.ENDTRY, false, false}, {opcode.ENDTRYL, true, false},
+		{opcode.TRY, false, true}, {opcode.TRYL, true, true}} {
+		for _, where := range []string{"into-instruction", "outside-script"} {
+			// layout: RET; <op> <operand(s)>; PUSHDATA1 4 aa bb cc dd; RET  (never executed: starts with RET)
+			ins := []byte{byte(jo.op)}
+			olen := 1
+			if jo.long {
+				olen = 4
+			}
+			n := 1
+			if jo.two {
+				n = 2
+			}
+			insLen := 1 + olen*n
+			off := insLen + 3 // lands on the data bytes of the PUSHDATA1 following the instruction
+			if where == "outside-script" {
+				off = 100
+			}
+			for k := 0; k < n; k++ {
+				ob := make([]byte, olen)
+				ob[0] = byte(off)
+				ins = append(ins, ob...)
+			}
+			scrpt := append([]byte{byte(opcode.RET)}, ins...)
+			scrpt = append(scrpt, byte(opcode.PUSHDATA1), 4, 0x21, 0x21, 0x21, 0x21, byte(opcode.RET))
+			ks = append(ks, kase{name: "invalid:script-target-" + where + ":" + jo.op.String(), tx: e.build(sg, scrpt, nil, nil)})
+		}
+	}
 	ks = append(ks, kase{name: "invalid:system-fee-above-block-limit", tx: e.build(sg, scr(), nil, func(tx *transaction.Transaction) { tx.SystemFee = p.BC.GetConfig().MaxBlockSystemFee + 1 })})
 	ks = append(ks, kase{name: "invalid:sender-cannot-pay", tx: e.build([]neotest.Signer{e.poor}, scr(), nil, func(tx *transaction.Transaction) { tx.SystemFee = 1_0000_0000 })})
 	{
@@ -305,7 +342,12 @@ func (e *env) onchain(round int) {
 	victim := e.build([]neotest.Signer{u}, script(5), nil, func(tx *transaction.Transaction) { tx.ValidUntilBlock = p.BC.BlockHeight() + 4 })
 	bystander := e.build([]neotest.Signer{u}, script(6), nil, func(tx *transaction.Transaction) { tx.ValidUntilBlock = p.BC.BlockHeight() + 4 })
 	mined := e.build([]neotest.Signer{w}, script(7), nil, nil)
-	a := e.build([]neotest.Signer{u}, script(8), []transaction.Attribute{{Type: transaction.ConflictsT, Value: &transaction.Conflicts{Hash: victim.Hash()}}}, nil)
+	victim2 := e.build([]neotest.Signer{u}, script(10), nil, func(tx *transaction.Transaction) { tx.ValidUntilBlock = p.BC.BlockHeight() + 4 })
+	victim3 := e.build([]neotest.Signer{u}, script(11), nil, func(tx *transaction.Transaction) { tx.ValidUntilBlock = p.BC.BlockHeight() + 4 })
+	a := e.build([]neotest.Signer{u}, script(8), []transaction.Attribute{
+		{Type: transaction.ConflictsT, Value: &transaction.Conflicts{Hash: victim.Hash()}},
+		{Type: transaction.ConflictsT, Value: &transaction.Conflicts{Hash: victim2.Hash()}},
+		{Type: transaction.ConflictsT, Value: &transaction.Conflicts{Hash: victim3.Hash()}}}, nil)
 	b := e.build([]neotest.Signer{w}, script(9), []transaction.Attribute{{Type: transaction.ConflictsT, Value: &transaction.Conflicts{Hash: bystander.Hash()}}}, nil)
 	if p.AddBlock(mined, a, b) == nil {
 		e.viol("producer-rejected-own-block", fmt.Sprintf("%s/round%d/onchain", e.name, round), p.Rejected.Error(), nil)
@@ -315,6 +357,8 @@ func (e *env) onchain(round int) {
 	cases := []kase{
 		{name: "invalid:already-on-chain", tx: mined},
 		{name: "invalid:named-as-conflict-by-on-chain-tx-of-its-signer", tx: victim},
+		{name: "invalid:named-by-second-conflicts-attribute-of-on-chain-tx-of-its-signer", tx: victim2},
+		{name: "invalid:named-by-third-conflicts-attribute-of-on-chain-tx-of-its-signer", tx: victim3},
 		{name: "valid:named-as-conflict-by-on-chain-tx-of-a-stranger", tx: bystander, valid: true},
 		{name: "invalid:conflicts-attribute-names-on-chain-tx", tx: e.build([]neotest.Signer{u}, script(4), []transaction.Attribute{{Type: transaction.ConflictsT, Value: &transaction.Conflicts{Hash: mined.Hash()}}}, nil)},
 	}
